@@ -143,6 +143,9 @@ func (fr *Frame) applyAnonSpec(st *State, spec *FuncSpec, env map[string]Val, pk
 		}
 		u.check(fr, st, "pre", sanitize(name)+"."+clauseKey(cl), t, "precondition of "+name+": "+cl.Text, pos, cl.Props)
 	}
+	if rs, ok := fr.functionalResult(st, spec, env, pkg, sig); ok {
+		return rs, true
+	}
 	old := st.clone()
 	if !fr.applyModifies(st, old, spec, env, pkg, name) {
 		return nil, false
@@ -408,6 +411,9 @@ func (fr *Frame) applyContractEnv(st *State, spec *FuncSpec, fn *ssa.Function, a
 		u.failed = err.Error()
 		return fr.freshResults(st, sig)
 	}
+	if rs, ok := fr.functionalResult(st, spec, env, fn.Pkg.Pkg, sig); ok {
+		return rs
+	}
 	old := st.clone()
 	if !fr.applyModifies(st, old, spec, env, fn.Pkg.Pkg, fn.Name()) {
 		return fr.freshResults(st, sig)
@@ -430,6 +436,27 @@ func (fr *Frame) applyContractEnv(st *State, spec *FuncSpec, fn *ssa.Function, a
 		u.failed = err.Error()
 	}
 	return rs
+}
+
+// functionalResult: inside a pure evaluation (closure bodies evaluated to a term) a callee contract cannot introduce a fresh
+// result; when the contract writes nothing and pins its single result with `ensures result == E`, E itself is the result.
+func (fr *Frame) functionalResult(st *State, spec *FuncSpec, env map[string]Val, pkg *types.Package, sig *types.Signature) ([]Val, bool) {
+	u := fr.u
+	if u.pure == 0 || sig.Results().Len() != 1 || !spec.HasMod || len(spec.Modifies) != 0 && !(len(spec.Modifies) == 1 && spec.Modifies[0] == "nothing") {
+		return nil, false
+	}
+	for _, cl := range spec.Ensures {
+		e := cl.Expr
+		if e.Op == "bin" && e.Name == "==" && len(e.Args) == 2 && e.Args[0].Op == "ident" && e.Args[0].Name == "result" {
+			v, err := u.specVal(e.Args[1], &specCtx{fr: fr, cur: st, old: st, env: env, pkg: pkg})
+			if err != nil {
+				return nil, false
+			}
+			v.Ty = sig.Results().At(0).Type()
+			return []Val{v}, true
+		}
+	}
+	return nil, false
 }
 
 // applyModifies havocs what a contract's modifies clause names (evaluated in the pre-state old).
@@ -1002,6 +1029,9 @@ func (fr *Frame) ifaceModel(st *State, key string, recv Val, args []Val, in ssa.
 						return nil, false
 					}
 					u.check(fr, st, "pre", sanitize(call.Common().Method.Name())+"."+clauseKey(cl), t, "precondition of "+k+": "+cl.Text, pos, cl.Props)
+				}
+				if rs, ok := fr.functionalResult(st, spec, env, n.Obj().Pkg(), sig); ok {
+					return rs, true
 				}
 				old := st.clone()
 				if !fr.applyModifies(st, old, spec, env, n.Obj().Pkg(), k) {
